@@ -584,10 +584,11 @@ def recording(A):
 
 
 # ------------------------------------------------------------------ broker pair
-def make_pair(reset=True):
+def make_pair(reset=True, keepalive=None, disconnect=None):
     if reset:
         E.reset_clock()
-    A = broker_mod.Broker(TubRef("callee"))
+    # keepalive / disconnect: the Tub options keepaliveTimeout / disconnectTimeout as Tub.brokerAttached-time parameters
+    A = broker_mod.Broker(TubRef("callee"), keepaliveTimeout=keepalive, disconnectTimeout=disconnect)
     B = broker_mod.Broker(TubRef("caller"))
     tA, tB = QT(), QT()
     A.transport, B.transport = tA, tB
@@ -676,18 +677,35 @@ def thunk_for(kind, rr, rr_typed, stalls):
 
 
 LOSS_MODES = ["lost", "lost-A-only", "shutdown-then-lost", "shutdown-other-then-data", "timeout", "lost-twice",
-              "garbage-then-lost"]
+              "garbage-then-lost", "silence", "silence-ping"]
+# ways of ending in which FOOLSCAP decides that the connection is gone and chooses the reason itself (nobody hands it a
+# Failure): the inactivity timer.  "timeout" calls Broker.connectionTimedOut directly, "silence" / "silence-ping" create the
+# caller's Broker with disconnectTimeout (and keepaliveTimeout) and let the peer say nothing while the virtual clock runs,
+# so the whole chain Banana.disconnectTimerFired -> connectionTimedOut -> shutdown -> finish runs.  Whatever reason foolscap
+# picks there, "the connection is gone": every outstanding callRemote must get DeadReferenceError.
+SELF_ENDED = {"timeout": None, "silence": (None, 30), "silence-ping": (10, 30)}
+# traffic in the OTHER direction (the calling Broker is also a callee): what B sends to an object of A right before the
+# connection ends, and how far that got when it ends
+REVERSE_DELIVER = ["queued", "partial", "ran", "ran-then-queued", "unsent"]
 
 
 def scenario(calls, cutA, cutB, chunkA=7, chunkB=7, loss="lost", stall_release="after", after_calls=("ok", "oneway"),
-             reason=None, probe=None, bystanders=(), other=None):
+             reason=None, probe=None, bystanders=(), other=None, reverse=None):
     """A = caller, B = callee.  Issue `calls`, deliver at most cutA bytes A->B and cutB bytes B->A in the given
     chunk sizes (alternating), then lose the connection in mode `loss`; afterwards the callee's late Deferreds fire,
     stalled arguments are released / failed and `after_calls` are issued on the dead reference.
+    `reverse` = dict(calls=[kinds], deliver=one of REVERSE_DELIVER): after the pump, B issues these calls on an object of A;
+    "queued": all their bytes (and whatever of B's stream was still undelivered) reach A in the SAME reactor turn in which
+    the connection ends (parsed, waiting in inboundDeliveryQueue, doNextCall has not run); "partial": all but the last 3
+    bytes; "ran": delivered and the eventual queue turned (the methods ran, late ones hang, answers were written and
+    delivered); "ran-then-queued": the calls are issued twice, first batch ran, second batch queued; "unsent": never delivered.
     -> dict(trace, fires, twoway, waiting, totalA, totalB, errors)"""
-    A, B, tA, tB, t, t2, rr, rr_typed = make_pair()
+    ka, dt = SELF_ENDED.get(loss) or (None, None)
+    A, B, tA, tB, t, t2, rr, rr_typed = make_pair(keepalive=ka, disconnect=dt)
     stalls = []
     twoway = []
+    RW = Watch()
+    ta = None
     # `other`: a second, independent connection X in the same process (same eventual queue) with calls outstanding and
     # possibly a notifyOnDisconnect handler; it is lost in the same reactor turn as A, before or after it
     X = None
@@ -766,6 +784,31 @@ def scenario(calls, cutA, cutB, chunkA=7, chunkB=7, loss="lost", stall_release="
         # what every caller has seen while the connection is still up
         pre_fires = [list(f) for f in rec.fires]
         pre_types = [[getattr(x, "__name__", None) for x in ft] for ft in rec.fire_types]
+        if reverse:
+            ta = T()
+            tra = A.getTrackerForMyReference(ta.processUniqueID(), ta)
+            tra.send()
+            rra = B.getTrackerForYourReference(tra.clid, None).getRef()
+
+            def batch():
+                for k in reverse["calls"]:
+                    tw, th = thunk_for(k, rra, rra, stalls)
+                    d = th()
+                    if tw:
+                        RW.add(d)
+                E.turn()
+            mode = reverse.get("deliver", "queued")
+            batch()
+            if mode in ("ran", "ran-then-queued"):
+                pump(10 ** 9, 10 ** 9, 10 ** 9, 10 ** 9)      # B's stream arrives, the calls run, A's answers go back
+                if mode == "ran-then-queued":
+                    batch()
+            if mode in ("queued", "partial", "ran-then-queued"):
+                upto = len(tB.out) - (3 if mode == "partial" else 0)
+                if sent[1] < upto:
+                    A.dataReceived(bytes(tB.out[sent[1]:upto]))      # and NO turn of the eventual queue before the end
+                    sent[1] = upto
+            sentA, sentB = sent
         done = failure.Failure(ConnectionDone())
         # `why` is the reason of the event that ends the connection for the caller: any member of REASONS
         if reason is None:
@@ -795,6 +838,14 @@ def scenario(calls, cutA, cutB, chunkA=7, chunkB=7, loss="lost", stall_release="
             A.connectionTimedOut()
             A.connectionLost(done)
             B.connectionLost(done)
+        elif loss in ("silence", "silence-ping"):
+            # the peer says nothing any more; the virtual clock passes the inactivity limit several times over
+            for i in range(4):
+                E.clock.advance(dt + 1)
+            if not A.disconnected or not tA.closed:
+                rec.errors.append("protocol violation: silent peer, but the disconnect timer did not drop the connection")
+            A.connectionLost(done)
+            B.connectionLost(done)
         elif loss == "garbage-then-lost":
             # the peer sends a protocol violation (over-long header, witness of the repaired D2): the caller must drop
             # the connection by itself -- no exception may escape dataReceived -- and then sees connectionLost
@@ -821,7 +872,7 @@ def scenario(calls, cutA, cutB, chunkA=7, chunkB=7, loss="lost", stall_release="
             if when == "after-loss":
                 rec.enqueue(kind == "raise")
         E.turn()
-        for d in t.pending + t2.pending:
+        for d in t.pending + t2.pending + (ta.pending if ta else []):
             if not d.called:
                 d.callback("late-result")
         for s in stalls:
@@ -834,9 +885,14 @@ def scenario(calls, cutA, cutB, chunkA=7, chunkB=7, loss="lost", stall_release="
         for k in after_calls:
             issue(k)
         E.turn()
+        if reverse and not B.disconnected:
+            B.connectionLost(done)          # (lost-A-only: the callee hears of it at last)
+            E.turn()
         rec.flush_open()
         waiting = list(A.waitingForAnswers.keys())
     return dict(trace=rec.trace, fires=rec.fires, twoway=twoway, waiting=waiting, totalA=totalA, totalB=totalB,
+                self_ended=loss in SELF_ENDED, reverse_fires=[list(f) for f in RW.fires],
+                reverse_waiting=list(B.waitingForAnswers.keys()) if reverse else [],
                 errors=rec.errors, evq=list(rec.evq), raised=rec.raised, marksA=list(tA.marks), marksB=list(tB.marks),
                 fire_types=rec.fire_types, via_turn=list(rec.via_turn), finish_why=rec.finish_why,
                 pre_fires=pre_fires, pre_types=pre_types, delivered_all=delivered_all,
@@ -955,6 +1011,13 @@ def judge(r):
                     "callRemote #%d on a second connection that was lost in the same turn fired %d times" % (i, len(f)))
     if r.get("other_waiting"):
         return "table-not-empty", "the second connection's waitingForAnswers still holds %r" % (r["other_waiting"],)
+    for i, f in enumerate(r.get("reverse_fires", [])):
+        if len(f) != 1:
+            return ("reverse-call-never-fired" if not f else "fired-twice",
+                    "callRemote #%d made by the PEER on an object of the calling Broker right before the connection ended "
+                    "fired %d times" % (i, len(f)))
+    if r.get("reverse_waiting"):
+        return "table-not-empty", "the peer's waitingForAnswers still holds %r" % (r["reverse_waiting"],)
     # the permitted outcomes are: the result, the remote failure, a Violation, DeadReferenceError (or the serialization error
     # of the call's own arguments).  A transport-level "connection lost" exception must never reach a caller as such,
     # whichever path retires the request (abandonAllRequests, the send queue, a Deferred chained in _callRemote ...)
@@ -984,7 +1047,14 @@ def judge_reason(r):
         if len(ft) != 1:
             continue
         got = ft[0]
-        if kind in ("listed", "sub"):
+        if r.get("self_ended"):
+            # nobody handed foolscap a reason: its own inactivity timer decided that the connection is gone
+            if got is not DeadReferenceError:
+                return ("timed-out-connection-not-DeadReferenceError",
+                        "the connection was dropped by foolscap's own inactivity timer (Broker.connectionTimedOut, which "
+                        "chose the reason %s itself) but the pending callRemote #%d errbacked with %s instead of "
+                        "DeadReferenceError" % (why.type.__name__, h, getattr(got, "__name__", got)))
+        elif kind in ("listed", "sub"):
             if got is not DeadReferenceError:
                 return ("lost-reason-not-DeadReferenceError",
                         "the connection ended with %s (%s of %s, a lost-connection reason) but the pending callRemote #%d "
